@@ -171,7 +171,7 @@ impl Drop for EventSender<'_> {
             kind: EventKind::Done,
             co: None,
         });
-        self.cqueue.cnt.fetch_sub(1, Ordering::Relaxed);
+        self.cqueue.cnt.fetch_sub(1, Ordering::Release);
         if let Some(w) = self.cqueue.to_wake.take() {
             w.unpark();
         }
@@ -231,10 +231,6 @@ impl Cqueue {
     // when the select coroutine is done, check the panic status
     // if it's panicked, re throw the panic data
     fn check_panic(&self, id: usize) {
-        if self.is_panicking.load(Ordering::Relaxed) {
-            return;
-        }
-
         use generator::Error;
         // take the handle out in its own statement: the `selectors` guard must be
         // released before we wait in `join` or re-throw the panic. Unwinding with
@@ -243,7 +239,14 @@ impl Cqueue {
         let handle = self.selectors.lock().unwrap()[id]
             .take()
             .expect("join handler not set");
-        match handle.join() {
+        // always wait for the select coroutine here: it still uses the cqueue
+        // after it pushed its Done event (it wakes the poller up)
+        let res = handle.join();
+        if self.is_panicking.load(Ordering::Relaxed) {
+            // a panic is already on its way to the caller
+            return;
+        }
+        match res {
             Ok(_) => {}
             Err(panic) => {
                 if let Some(err) = panic.downcast_ref::<Error>() {
@@ -280,8 +283,16 @@ impl Cqueue {
             match self.ev_queue.pop() {
                 Some(mut ev) => run_ev!(ev),
                 None => {
-                    if self.cnt.load(Ordering::Relaxed) == 0 {
-                        return Err(PollError::Finished);
+                    if self.cnt.load(Ordering::Acquire) == 0 {
+                        // a select coroutine pushes its Done event before it
+                        // decrements `cnt`, so the event may have arrived after
+                        // the `pop` above: it must not be left behind (its
+                        // panic would be lost and the coroutine would not be
+                        // waited for)
+                        match self.ev_queue.pop() {
+                            Some(mut ev) => run_ev!(ev),
+                            None => return Err(PollError::Finished),
+                        }
                     }
                 }
             }
